@@ -23,8 +23,8 @@ i) every comparison leaf of WHERE becomes a row condition: in ConditionEvaluator
 j) the event-at-a-time evaluation of a numeric condition (memtable rows) reads the field through the same kinds as the columnar one (i64, u64, f64): NumericCondition::evaluate_event_direct and
    evaluate_at are siblings; a kind only one of them reads gives different answers before and after FLUSH.
 """
-FLOOR = 18
-REQUIRED = ["C02.a1", "C02.a2", "C02.a3", "C02.a4", "C02.b", "C02.c", "C02.d", "C02.e1", "C02.e2", "C02.f", "C02.g", "C02.h", "C02.i", "C02.j", "C02.k", "C02.l", "C02.m", "C02.n"]
+FLOOR = 19
+REQUIRED = ["C02.a1", "C02.a2", "C02.a3", "C02.a4", "C02.b", "C02.c", "C02.d", "C02.e1", "C02.e2", "C02.f", "C02.g", "C02.h", "C02.i", "C02.j", "C02.k", "C02.l", "C02.m", "C02.n", "C02.o"]
 
 SUPERSET = r"(collect_zones_for_scope|create_all_zones_for_segment_from_meta(_cached)?)$"
 
@@ -511,3 +511,31 @@ def run(ctx):
             bad.append(("bool-column-has-no-string-view", "PreparedAccessor::get_str_at returns None for a typed bool column: the string condition a true / false literal becomes fails every row of a flushed segment", sp(g, 0)))
         return bad
     ctx.run("C02.l", "K11 SIB", "PreparedAccessor::get_str_at", "bool values have the same string view in memory and in segments", l_)
+
+    def o_(inst):
+        bad = []
+        # (1) RETURN limits what is shown, not what SINCE is evaluated on: the USING time field is among the loaded columns
+        b = F.method("SelectionProjection", "ProjectionStrategy", "compute")
+        adds = [c_ for c_ in b.calls if not c_.cleanup and re.search(r"ProjectionColumns::add$", c_.nname)]
+        tf = [c_ for c_ in adds if has_origin(b.origins(c_.args[1]), None, proj_contains=[".time_field"])]
+        ob = [c_ for c_ in adds if any(l[0] == "call" and norm_path(l[1]).endswith("QueryPlan::order_by") for l in b.origins(c_.args[1]))]
+        inst.sites = ["columns added by name: %d" % len(adds)] + [sp(b, c_.bb) + " time field" for c_ in tf] + [sp(b, c_.bb) + " order field" for c_ in ob]
+        if len(adds) < 2:
+            raise AnchorMissing("columns added by name in SelectionProjection::compute (%d)" % len(adds))
+        if not tf:
+            bad.append(("since-field-not-loaded", "SelectionProjection::compute loads the RETURN list, the ORDER BY field and the filter columns, but not the USING time field SINCE is evaluated on: with a WHERE clause and a RETURN that omits it, every flushed row fails the SINCE comparison", None))
+        # (2) a projection is the identity only if it keeps all input columns
+        pi = F.fn("Projection::is_identity")
+        cmp_param = False
+        for i_ in sorted(pi.live_blocks()):
+            for st in pi.blocks[i_]["s"]:
+                v = st.get("v")
+                if v and v.get("r") == "bin" and v.get("op") in ("Ne", "Eq"):
+                    for o_ in (v["a"], v["b"]):
+                        if any(l[0] == "param" and l[1] != "self" for l in pi.origins(o_)):
+                            cmp_param = True
+        inst.sites.append("is_identity compares with the input width: %s" % cmp_param)
+        if not cmp_param:
+            bad.append(("prefix-projection-taken-for-identity", "Projection::is_identity looks only at the projection itself: indices 0..n over an input of more than n columns skip ProjectOp, the ordered merger then refuses the batches (column count) and the query returns no rows", None))
+        return bad
+    ctx.run("C02.o", "K10 READS", "SelectionProjection::compute / Projection::is_identity", "RETURN never hides a column a row test reads; a narrowing projection is applied", o_)
